@@ -39,7 +39,7 @@ def run(tier, seed, res):
                        "sequential consistency at atomic-operation / spin-iteration granularity under dsched; weak-memory effects only via the stress part on x86",
                        "lock/unlock are correctly paired by every thread (caller precondition)"]
     n = 16
-    pb22, pb31 = (3, 2) if quick else (6, 4)
+    pb22, pb31 = (3, 2) if quick else (4, 3)
     jobs = [dict(cmd=[b, "exh", "21", "99", str(i), "4"], tag="exh21") for i in range(4)]
     jobs += [dict(cmd=[b, "exh", "22", str(pb22), str(i), "4"], tag="exh22") for i in range(4)]
     jobs += [dict(cmd=[b, "exh", "31", str(pb31), str(i), "8"], tag="exh31") for i in range(8)]
@@ -50,12 +50,12 @@ def run(tier, seed, res):
                                            "2 threads x 2 cycles (16 kind vectors, work 1) and 3 threads x 1 cycle (8 kind vectors, work {0,1}^3): "
                                            "all schedules with at most %d resp. %d preemptions" % (pb22, pb31))
     collect(res, wr)
-    per = 1500 if quick else 250000
+    per = 1500 if quick else 60000
     jobs = [dict(cmd=[b, "rc"], env={"RC_PARAMS": "seed=%d max_success=%d max_size=100" % (seed * 131 + i, per)}, tag="rc") for i in range(n)]
     wr = core.run_workers(PROP, jobs)
     res.absorb(wr, "rc")
     collect(res, wr)
-    iters = 10000 if quick else 4000000
+    iters = 10000 if quick else 500000
     jobs = [dict(cmd=[b, "stress", str(t), str(iters), str(seed * 17 + t)], tag="stress", timeout=120 if quick else 1500) for t in (2, 3, 8, 16)]
     wr = core.run_workers(PROP, jobs, max_parallel=1)
     res.absorb(wr, "stress")
